@@ -440,6 +440,17 @@ let () =
                  (try
                     match resolve_refs op outs with
                     | None -> if o <> Some OU then set "DIFF" (where ^ " refers to a result that does not exist")
+                    | Some op when opname = "mt" ->
+                        (* threads: not part of the sequential model; the observation itself says whether every
+                           thread obtained what the same calls give sequentially *)
+                        let slot = nat_of_int (int_of_string (List.nth (String.split_on_char ':' op) 1)) in
+                        (match lookup !st slot, o with
+                         | Some (OScoring _), Some (OV "mt:ok") -> ()
+                         | Some (OScoring _), Some OP -> set "PROPFAIL" (where ^ " panic PanicException in a thread sharing the matrix")
+                         | Some (OScoring _), Some (OV v) -> set "PROPFAIL" (where ^ " value-mismatch concurrent and sequential results differ: " ^ short v)
+                         | Some (OScoring _), _ -> set "DIFF" (where ^ " unexpected observation")
+                         | _, Some OU -> ()
+                         | _, _ -> set "DIFF" (where ^ " model: slot unbound, implementation called"))
                     | Some op ->
                     let c = parse_op op in
                     (* history-free specification of calculate / scan: the untouched sequence *)
